@@ -548,6 +548,7 @@ def run_C08(ctx, R):
     _per_config(ctx, R, own.verify_summaries)
     _per_config(ctx, R, own.own7)
     _per_config(ctx, R, own.own4_dangling)
+    _per_config(ctx, R, own.ref_constructors)      # a failed step must not release what a half-built reference borrows
 
 
 PROPERTIES = {
